@@ -82,6 +82,10 @@ def has_explicit_variant(prog):
     return any(kind in 'OS' and len(pos) >= 2 for _, kind, pos, _, _, _ in prog)
 
 
+def has_meta_false_variant(prog):
+    return any(kind in 'OSD' and not meta for _, kind, _, _, _, meta in prog)
+
+
 def build(prog, decl='ctor'):
     """decl='ctor': positional parents through the node constructor (declared order = argument order);
     decl='reversed': Operation/Simulator nodes with >= 2 positional parents are created without parents and their
@@ -90,6 +94,8 @@ def build(prog, decl='ctor'):
     m = elfi.ElfiModel(name='m')
     for name, kind, pos, named, obs, meta in prog:
         explicit = decl == 'reversed' and kind in 'OS' and len(pos) >= 2
+        # decl='meta-false': nodes that do not use run metadata say so explicitly (node.uses_meta = False, what the
+        # public setter writes after a declaration is withdrawn) instead of leaving the flag absent
         ps = [] if explicit else [m[p] for p in pos]
         kw = dict(model=m, name=name)
         named_kws = [k for k, _ in named]
@@ -114,6 +120,9 @@ def build(prog, decl='ctor'):
             m.add_edge(p, name, k)
         if meta:
             node.uses_meta = True
+        elif decl == 'meta-false' and kind in 'OSD':
+            node.uses_meta = True
+            node.uses_meta = False
     return m
 
 
@@ -200,7 +209,9 @@ def run_chunk(case):
     with pin.pinned(0):
         for prog in progs:
             nprog += 1
-            for decl in (('ctor', 'reversed') if has_explicit_variant(prog) else ('ctor',)):
+            decls = ['ctor'] + (['reversed'] if has_explicit_variant(prog) else []) + \
+                (['meta-false'] if (has_meta_false_variant(prog) and case['n'] <= 3) else [])
+            for decl in decls:
                 model = build(prog, decl)
                 for outs, sup in out_wv_combos(prog, case['mode'] if decl == 'ctor' else 'light'):
                     for bs in case['bss']:
@@ -324,5 +335,6 @@ def run(ctx):
         'rejecting the graph and evaluating it correctly are accepted',
         'node names are chosen so that creation order differs from name order',
         'edge declaration: positional parents through the constructor, and (Operation/Simulator nodes with >= 2 positional '
-        'parents) additionally one by one with explicit indices in descending order via model.add_edge',
+        'parents) additionally one by one with explicit indices in descending order via model.add_edge; run-metadata '
+        'declaration: absent, True, and explicitly withdrawn (uses_meta = True then False)',
     ]
